@@ -84,3 +84,48 @@ Lemma week_frac_free_instances :
 Proof. repeat constructor; try (vm_compute; discriminate); vm_compute; trivial. Qed.
 
 Print Assumptions py_native_is_code.
+
+(* ------------------------------------------------------------------ with a FRACTIONAL week (Flocq: Proofs/DurParseWeekCarry.v) *)
+From PV Require Import Proofs.DurParseWeekCarry.
+
+(* the fraction digits of the weeks group, if any, are below 10^15 (at most 15 digits: beyond, int(portion)/10*7 leaves the range in which
+   the float carry is proved; no bound on anything else) *)
+Definition week_frac_small (m : dmatch) : Prop :=
+  match g_weeks m with Some t => match t_frac t with Some p => dval p < 10 ^ 15 | None => True end | None => True end.
+
+Lemma bind_ok3 {A B C} (r : result (A * B * C)) : bind r (fun '(a, b, c) => Ok (a, b, c)) = r.
+Proof. destruct r as [[[a b] c]|e]; reflexivity. Qed.
+
+Theorem gen_parse_eq_week : forall m, week_frac_small m -> gen_parse_iso8601_duration m = py_native_of_match m.
+Proof.
+  intros m Hs. destruct (g_weeks m) as [[wi [wf|] ws]|] eqn:Ew.
+  2, 3: apply gen_parse_eq; unfold week_frac_free; rewrite Ew; exact I || reflexivity.
+  destruct m as [w y mo d hms h mi s]. cbn [g_weeks] in Ew. subst w. unfold week_frac_small in Hs. cbn [g_weeks t_frac] in Hs.
+  unfold gen_parse_iso8601_duration, py_native_of_match, py_args. cbv zeta.
+  cbn [g_weeks g_years g_months g_days g_hms g_hours g_minutes g_seconds].
+  rewrite bind_assoc.
+  match goal with |- bind ?A ?K = bind ?B ?K' => set (K1g := K); set (K1h := K'); assert (E1 : A = B) end.
+  { cbn [is_some t_frac t_int bind]. destruct (is_some y || is_some mo || is_some d || hms); [reflexivity|].
+    rewrite bind_ok3. apply week_stage. exact Hs. }
+  rewrite E1. clear E1.
+  assert (H2 : forall wk d0 h0, K1g (wk, d0, h0) = K1h (wk, d0, h0)).
+  { intros wk d0 h0. subst K1g K1h. cbv beta iota. rewrite bind_assoc.
+    match goal with |- bind _ ?K = bind _ ?K' => set (K2g := K); set (K2h := K') end.
+    assert (H3 : forall yy mm fr dd hh, K2g (yy, mm, fr, dd, hh) = K2h (yy, mm, dd, hh, fr)).
+    { intros yy mm fr dd hh. subst K2g K2h. cbv beta iota.
+      destruct hms; [|crush].
+      destruct h as [[hi [hf|] hs]|]; destruct mi as [[mii [mif|] mis]|]; destruct s as [[si [sf|] ss]|]; crush. }
+    clearbody K2g K2h.
+    destruct y as [[yi [yf|] ys]|]; destruct mo as [[moi [mof|] mos]|]; destruct d as [[di [df|] dst]|]; crush; apply H3. }
+  match goal with |- bind ?X _ = _ => destruct X as [[[wk d0] h0]|e]; [|reflexivity] end. cbn [bind]. apply H2.
+Qed.
+
+(* every match record the regular expression can produce on a text whose week fraction has at most 15 digits *)
+Theorem py_native_is_code_week : forall s m, match_duration s = Some m -> week_frac_small m ->
+  py_native s = gen_parse_iso8601_duration m.
+Proof. intros s m Hm Hw. rewrite py_native_unfold, Hm. symmetry. apply gen_parse_eq_week. exact Hw. Qed.
+
+Lemma week_frac_free_small : forall m, week_frac_free m -> week_frac_small m.
+Proof. intros m H. unfold week_frac_free, week_frac_small in *. destruct (g_weeks m) as [t|]; [rewrite H|]; exact I. Qed.
+
+Print Assumptions gen_parse_eq_week.
